@@ -232,6 +232,38 @@ int main() {
 """, multi_includes=["au/io.hh", "au/quantity_point.hh", "au/units/seconds.hh", "au/units/minutes.hh"])
 
 
+# Functions the library declares constexpr but implements with <cmath> calls: usable in constant
+# expressions only where the compiler treats those calls as builtins.  (Kept out of the general
+# fragment pool on purpose: a probe that one compiler rejects would mask everything else in it.)
+_p("constexpr_copysign", r"""
+int main() {
+    constexpr auto x = copysign(seconds(3.0), -1.0);
+    constexpr auto y = copysign(2.0, seconds(-1.0));
+    std::printf("%.17g %.17g\n", x.in(seconds), y);
+    return 0;
+}
+""")
+
+_p("constexpr_isnan", r"""
+int main() {
+    constexpr bool a = isnan(seconds(1.0));
+    constexpr bool b = isnan(make_quantity_point<Seconds>(2.0f));
+    std::printf("%d %d\n", int(a), int(b));
+    return 0;
+}
+""")
+
+_p("constexpr_truncation_check", r"""
+int main() {
+    constexpr bool t = will_conversion_truncate<int>(seconds(2.5), seconds);
+    constexpr bool u = will_conversion_truncate<int>(seconds(2.0), seconds);
+    constexpr bool l = is_conversion_lossy<long>(minutes(0.25f), seconds);
+    std::printf("%d %d %d\n", int(t), int(u), int(l));
+    return 0;
+}
+""")
+
+
 def names():
     return sorted(PROGRAMS)
 
@@ -259,7 +291,19 @@ def judge(builder, name, single_header, toolchains):
     for variant in ("multi", "single"):
         vals = {k: v for k, v in table.items() if k.endswith("/" + variant)}
         if len({v for v in vals.values()}) > 1:
-            detail["what"] = "%s packaging: configurations disagree" % variant
+            acc = sorted({k.split("/")[0] + "/" + k.split("/")[1] for k, v in vals.items() if v[0] == "accepted"})
+            rej = sorted({k.split("/")[0] + "/" + k.split("/")[1] for k, v in vals.items() if v[0] == "rejected"})
+
+            def short(cfgs):
+                # "g++" when every standard of that compiler is in the set, else the full names
+                out = []
+                for comp in sorted({c.split("/")[0] for c in cfgs}):
+                    mine = [c for c in cfgs if c.split("/")[0] == comp]
+                    allof = [k for k in {kk.split("/")[0] + "/" + kk.split("/")[1] for kk in vals} if k.split("/")[0] == comp]
+                    out.append(comp if len(mine) == len(allof) else ",".join(mine))
+                return " ".join(out)
+
+            detail["what"] = "%s packaging: configurations disagree: accepts=[%s] rejects=[%s]" % (variant, short(acc), short(rej))
             return "TOOLCHAIN_DEPENDENT", detail
     # same toolchain, different packaging
     for tc in toolchains:
